@@ -5,8 +5,8 @@ import filecmp
 import vlib
 import halfcommon
 
-QUICK = ["cxx14-table", "cxx14-notable", "c-table", "cxx14-f16c", "cxx14-f16c-upward", "cxx20-notable", "cxx14-fpexc"]
-THOROUGH = QUICK + ["cxx14-table-upward", "cxx17-table", "cxx20-table", "c-notable", "clang14-table"]
+QUICK = ["cxx14-table", "cxx14-notable", "c-table", "cxx14-f16c", "cxx14-f16c-upward", "cxx20-notable", "cxx14-fpexc", "cxx14-table-upward", "cxx14-notable-daz"]
+THOROUGH = QUICK + ["cxx17-table", "cxx20-table", "c-notable", "clang14-table"]
 
 
 def table_trace(chk):
